@@ -326,8 +326,9 @@ func runC13(c *Ctx) {
 		e.Run()
 	}
 	runC13Long(c)
+	runBigCollection(c, "C13")
 	c.Meta(map[string]interface{}{
-		"rule":    "(long indexes: every insertion sequence over a three-value domain of length 5 (thorough 7), after each insertion from the 4th on, after an update of every object and after each deletion: for an indexed int and an indexed string, every operator x 4 probes, alone and as last link of an And chain: non-increasing order, Reverse non-decreasing, Limit {0,1,2,m-1,m,m+1} = prefix of the unlimited result in both orders and whichever of Limit/Reverse is called first, One = first element or the no-object error, AssignIndex complete and non-increasing.) in every state reached by BFS over the contents alphabet (ties guaranteed by the value classes): every single comparison and every And-chain of length 2 ending on an indexed field x {plain, Reverse} x Limit in {0,1,m-1,m,m+1} x terminal pairs over {Collect, One, Assign, AssignOne} on the same search value; oracles: set = reference, non-increasing / non-decreasing in the last field, Limit(n) = prefix of the unlimited sequence, One = head or no-object error, terminals independent of earlier terminals, AssignIndex = stored values in non-increasing order. Non-trivial = states with >= 2 objects.",
+		"rule":    "(big collections: 150 and 300 (thorough up to 1100) objects over 7 value classes: sizes, Limit {1,8,9,16,17,64,127,128,129,200,m-1,m,m+1} prefix in both orders, Assign.) (long indexes: every insertion sequence over a three-value domain of length 5 (thorough 7), after each insertion from the 4th on, after an update of every object and after each deletion: for an indexed int and an indexed string, every operator x 4 probes, alone and as last link of an And chain: non-increasing order, Reverse non-decreasing, Limit {0,1,2,m-1,m,m+1} = prefix of the unlimited result in both orders and whichever of Limit/Reverse is called first, One = first element or the no-object error, AssignIndex complete and non-increasing.) in every state reached by BFS over the contents alphabet (ties guaranteed by the value classes): every single comparison and every And-chain of length 2 ending on an indexed field x {plain, Reverse} x Limit in {0,1,m-1,m,m+1} x terminal pairs over {Collect, One, Assign, AssignOne} on the same search value; oracles: set = reference, non-increasing / non-decreasing in the last field, Limit(n) = prefix of the unlimited sequence, One = head or no-object error, terminals independent of earlier terminals, AssignIndex = stored values in non-increasing order. Non-trivial = states with >= 2 objects.",
 		"configs": cfgs, "depth": depth,
 	})
 }
